@@ -2,9 +2,11 @@ package eng
 
 import (
 	_ "embed"
+	"fmt"
 	"go/constant"
 	"go/token"
 	"go/types"
+	"os"
 	"strings"
 
 	"golang.org/x/tools/go/ssa"
@@ -16,6 +18,43 @@ import (
 type VM func(v ssa.Value) bool
 
 // cellStore returns the unique stored value of a single-store Alloc cell, or nil.
+// spilledParam: the local is the spill of a by-value struct parameter — stored once, from the parameter, and afterwards only
+// read (whole or field by field).
+func spilledParam(a *ssa.Alloc) (*ssa.Parameter, bool) {
+	refs := a.Referrers()
+	if refs == nil {
+		return nil, false
+	}
+	var prm *ssa.Parameter
+	n := 0
+	for _, r := range *refs {
+		switch x := r.(type) {
+		case *ssa.Store:
+			if x.Addr != a {
+				return nil, false
+			}
+			p, ok := x.Val.(*ssa.Parameter)
+			if !ok {
+				return nil, false
+			}
+			prm = p
+			n++
+		case *ssa.FieldAddr:
+			if fr := x.Referrers(); fr != nil {
+				for _, rr := range *fr {
+					if st, isSt := rr.(*ssa.Store); isSt && st.Addr == x {
+						return nil, false
+					}
+				}
+			}
+		case *ssa.UnOp, *ssa.DebugRef:
+		default:
+			return nil, false
+		}
+	}
+	return prm, n == 1 && prm != nil
+}
+
 func cellStore(a *ssa.Alloc) ssa.Value {
 	var st ssa.Value
 	n := 0
@@ -178,6 +217,12 @@ func Param(name string) VM {
 				return false
 			}
 			bp, isP := Strip(base).(*ssa.Parameter)
+			if !isP {
+				// a struct handed over by value is spilled into a local before its fields are read
+				if al, isAl := Strip(base).(*ssa.Alloc); isAl {
+					bp, isP = spilledParam(al)
+				}
+			}
 			if !isP || bp.Parent() == nil {
 				return false
 			}
@@ -201,7 +246,17 @@ var refParams map[string][]string
 // called there): the i-th parameter of a function that exists on the reference tree with the same number of parameters
 // answers to the i-th reference name, whatever it is called now — renaming a parameter changes nothing for the rules.
 // Functions that are new, or whose parameter list changed, answer with the current names.
-func paramRefName(p *ssa.Parameter) string {
+// ReferenceArities: the number of parameters (receiver included) of every function of the reference tree.
+func ReferenceArities() map[string]int {
+	loadRefParams()
+	out := map[string]int{}
+	for k, v := range refParams {
+		out[k] = len(v)
+	}
+	return out
+}
+
+func loadRefParams() {
 	if refParams == nil {
 		refParams = map[string][]string{}
 		for _, l := range strings.Split(referenceParams, "\n") {
@@ -219,6 +274,10 @@ func paramRefName(p *ssa.Parameter) string {
 			}
 		}
 	}
+}
+
+func paramRefName(p *ssa.Parameter) string {
+	loadRefParams()
 	fn := p.Parent()
 	if fn == nil {
 		return p.Name()
@@ -732,13 +791,16 @@ func resolveTempPhi(phi *ssa.Phi) ssa.Value {
 		if sfx == "" {
 			return nil
 		}
+		if os.Getenv("LBCHECK_DEBUG") != "" {
+			fmt.Fprintln(os.Stderr, "tempphi enter", phi.Comment, len(phi.Edges), phi.Type())
+		}
 		var errPhi *ssa.Phi
 		for _, in := range phi.Block().Instrs {
 			p, ok := in.(*ssa.Phi)
 			if !ok {
 				break
 			}
-			if p != phi && normTempSuffix(p.Comment) == sfx && p.Type().String() == "error" {
+			if p != phi && normTempSuffix(p.Comment) == sfx && (p.Type().String() == "error" || isStatusLike(p.Type())) && errPhi == nil {
 				errPhi = p
 			}
 		}
@@ -776,14 +838,21 @@ func resolveTempPhi(phi *ssa.Phi) ssa.Value {
 			}
 			return val
 		}
+		dbg := os.Getenv("LBCHECK_DEBUG") != ""
 		var val ssa.Value
 		for i, e := range phi.Edges {
 			if NilConst(errPhi.Edges[i]) {
 				if val != nil && val != e {
+					if dbg {
+						fmt.Fprintln(os.Stderr, "tempphi", phi.Comment, "two values", val, e)
+					}
 					return nil
 				}
 				val = e
 			} else if !isZeroConst(e) {
+				if dbg {
+					fmt.Fprintln(os.Stderr, "tempphi", phi.Comment, "non-zero on error edge", e, errPhi.Edges[i])
+				}
 				return nil
 			}
 		}
@@ -793,13 +862,39 @@ func resolveTempPhi(phi *ssa.Phi) ssa.Value {
 		fn := phi.Parent()
 		okEdges := CmpEdges(fn, Same(errPhi), NilConst, EQ)
 		if len(okEdges) == 0 {
+			if dbg {
+				fmt.Fprintln(os.Stderr, "tempphi", phi.Comment, "no ok edges")
+			}
 			return nil
 		}
 		for _, r := range *phi.Referrers() {
-			if _, dbg := r.(*ssa.DebugRef); dbg {
+			if _, isDbg := r.(*ssa.DebugRef); isDbg {
 				continue
 			}
+			if mp, isPhi := r.(*ssa.Phi); isPhi {
+				// merged with another definition: the value flows in over the predecessor it is the operand for
+				okAll := true
+				for i, e := range mp.Edges {
+					if e != ssa.Value(phi) {
+						continue
+					}
+					pred := mp.Block().Preds[i]
+					if len(pred.Instrs) == 0 {
+						okAll = false
+						continue
+					}
+					if g, _ := GuardedBy(fn, pred.Instrs[len(pred.Instrs)-1], okEdges); !g {
+						okAll = false
+					}
+				}
+				if okAll {
+					continue
+				}
+			}
 			if g, _ := GuardedBy(fn, r, okEdges); !g {
+				if dbg {
+					fmt.Fprintln(os.Stderr, "tempphi", phi.Comment, "use not guarded", r)
+				}
 				return nil
 			}
 		}
@@ -823,4 +918,14 @@ func ArgOf(cc *ssa.CallCommon, name string) ssa.Value {
 		}
 	}
 	return nil
+}
+
+// isStatusLike: a result that reports failure the way an error does — a pointer to a type called Status (gRPC statuses are
+// handed around as *status.Status, nil meaning success).
+func isStatusLike(t types.Type) bool {
+	pt, ok := t.(*types.Pointer)
+	if !ok {
+		return false
+	}
+	return strings.HasSuffix(pt.Elem().String(), "status.Status") || strings.HasSuffix(pt.Elem().String(), ".Status")
 }
